@@ -31,7 +31,7 @@ CLAIMS = {
             "Lean proof (weak-count invariant over all micro-steps) + correspondence"),
     "C10": ("Proved for every history of the running machine (Proofs/ActOnce.lean, induction over all micro-steps): EACH REGISTERED CLEANING ACTION RUNS AT MOST ONCE (action_at_most_once: identifiers are handed out from a counter, stored actions have pairwise distinct identifiers - invariant AOk - and an action is taken out of its slot before it runs, both in Cleanable::clean and in the map's drop glue); an action that ran is in no slot map any more and its identifier is never reused (action_ran_is_gone), so clean() afterwards finds nothing. Step lemmas: slot emptied before the action's script is entered on both paths; Cleanable drop only drops a Weak; clean after destruction is a no-op. 'Exactly once by the time the Cleaner is gone' (panic-free) and 'actions never reach a dropped object' are checked per run (ordered action events, cap-dead / action-early oracles).",
             "Lean proof (action-at-most-once over all histories of the running machine) + correspondence + action oracles"),
-    "C11": ("Proved for every reachable world: allocated_bytes() equals the total size of the boxes that exist (BytesOk), buffered_objects_count() is the length of a duplicate-free buffer whose members are exactly the PossibleCycles-marked live boxes (buffer_exact, from Inv). Step lemmas: add_to_list/remove_from_list exact size change; clone leaves the buffer; executions +1 per started collection. Checked per run by model-independent oracles (allocator sum vs allocated_bytes, buffer walk vs cached size, link integrity, marks).",
+    "C11": ("Proved for every reachable world: allocated_bytes() equals the total size of the boxes that exist (BytesOk), buffered_objects_count() is the length of a duplicate-free buffer whose members are exactly the PossibleCycles-marked live boxes (buffer_exact, from Inv). Step lemmas: add_to_list/remove_from_list exact size change; clone leaves the buffer; executions_count grows in EVERY micro-step by exactly the number of collections the step starts (executions_count_exact, all modes). Checked per run by model-independent oracles (allocator sum vs allocated_bytes, buffer walk vs cached size, link integrity, marks).",
             "Lean proof (bytes and buffer invariants over all micro-steps) + correspondence + buffer-walk oracle"),
     "C12": ("is_tracing characterisation, collect clears finalizing/dropping (trace always sees is_tracing), nested collect and auto-collect are no-ops while collecting, try_unwrap Err / finalize_again panic in callbacks, and (from I6, proved globally) is_tracing false when idle.",
             "Lean theorems + global flags invariant + correspondence"),
